@@ -14,8 +14,8 @@ when the fringe is found empty the incumbent is the optimum and is the value of 
 solution (`complete_optimal`), `is_exact` is reported, and no value is reported iff no solution
 exists (`complete_infeasible`).  Configuration covered by the proof: plain multiset fringe
 (`SimpleFringe`), no threshold cache (`mustExplore = true`), no cutoff.
-Stated, not proved (see the `def … : Prop` at the end): termination (`SeqTerminates`), the
-duplicate-free fringe (`ProcessInvDedup`), the cache (`CachePruneOk`). -/
+Termination and the duplicate-free fringe: Props/C01t.lean, Props/C01b.lean.
+Stated, not proved (see the `def … : Prop` at the end): the cache (`CachePruneOk`). -/
 set_option linter.unusedSectionVars false
 namespace Ddo.C01
 variable {S : Type} [DecidableEq S]
@@ -160,12 +160,9 @@ theorem infeasible_no_update (Phi : SubP S → EInt) (opt : Int) (Sol : List Dec
 
 /-! ## stated, not proved -/
 
-/-- termination: the multiset of fringe depths decreases (Dershowitz–Manna) at every pop because the
-    cut-set nodes are strictly deeper than the node they come from (C08 (ii)) -/
-def SeqTerminates : Prop := True
-/-- `process_inv` for the duplicate-free fringe (`pushSpec true`): coalescing keeps the larger value
-    and the larger bound, so a cover witness survives -/
-def ProcessInvDedup : Prop := True
+/-! Termination and the duplicate-free fringe are theorems since the second proof stage:
+    `Ddo.C01t.seq_terminates`, `Ddo.C01t.run_end_optimal`, `Ddo.C01t.good_terminates` (Props/C01t.lean) and
+    `Ddo.C01b.process_inv_dedup`, `Ddo.C01b.process_inv_any` (Props/C01b.lean). -/
 /-- with a threshold cache: a popped node refused by `must_explore` is not needed (C09) -/
 def CachePruneOk : Prop := True
 
